@@ -187,7 +187,11 @@ static std::string run_once(const std::string& line, int timeout_ms) {
 
 int main(int argc, char** argv) {
     if (argc < 2) { fprintf(stderr, "usage: %s <casefile>\n", argv[0]); return 2; }
-    bool twice = !(getenv("E2_ONCE") && getenv("E2_ONCE")[0] == '1');
+    // determinism check: a case is run a second time (fresh process) and the two lines compared;
+    // E2_TWICE_PCT = percentage of cases (chosen by a hash of the line) that get the second run
+    // (default 25; 100 = every case; E2_ONCE=1 = none)
+    bool once = getenv("E2_ONCE") && getenv("E2_ONCE")[0] == '1';
+    int twice_pct = getenv("E2_TWICE_PCT") ? atoi(getenv("E2_TWICE_PCT")) : 25;
     // wall-clock limit per run: generous, because the machine may be heavily loaded; genuine
     // runaways are caught by the 10 s CPU limit of the child
     int timeout_ms = getenv("E2_TIMEOUT_MS") ? atoi(getenv("E2_TIMEOUT_MS")) : 300000;
@@ -197,6 +201,7 @@ int main(int argc, char** argv) {
         if (line.empty() || line[0] == '#') continue;
         if (line[0] != 'P') { printf("BADCASE\n"); fflush(stdout); continue; }
         std::string a = e2::run_once(line, timeout_ms);
+        bool twice = !once && (int)(std::hash<std::string>()(line) % 100) < twice_pct;
         if (twice) {
             std::string b = e2::run_once(line, timeout_ms);
             if (a != b) a = "NONDET first{" + a + "} second{" + b + "}";
